@@ -17,6 +17,7 @@ package main
 // when they differ in share, session id, signer set, variant, message or random bytes.
 
 import (
+	"testing/iotest"
 	"bytes"
 	crand "crypto/rand"
 	"fmt"
@@ -209,6 +210,18 @@ func bipSign(bc bipCtx, src io.Reader) (string, J) {
 	return hx(sig[:32]), in
 }
 
+// bipSignShort: the 32 auxiliary bytes are delivered ONE BYTE PER Read call (a legitimate io.Reader: buffered, non-blocking
+// and network-backed sources do that); the signer must still consume all 32 of them
+func bipSignShort(bc bipCtx, aux32 []byte) (string, J) {
+	in := J{"sk": hx(bc.sk), "m": hx(bc.m), "aux": hx(aux32)}
+	rd := iotest.OneByteReader(bytes.NewReader(append(append([]byte{}, aux32...), make([]byte, 64)...)))
+	sig, err := taproot.SecretKey(bc.sk).Sign(rd, bc.m)
+	if err != nil || len(sig) != 64 {
+		return "", in
+	}
+	return hx(sig[:32]), in
+}
+
 func init() {
 	register("nonce", func(c *Ctx) {
 		// ---- real FROST key generation, n = 4, t = 1, deterministic from the seed
@@ -382,6 +395,20 @@ func init() {
 			r2, in2 := bipSign(c2, bsrc(mode))
 			c.Count("nonce/bip340pair:" + mode + ":" + comp)
 			c.Emit("bip340pair", J{"c1": in1, "c2": in2, "differs": comp, "rng": mode},
+				J{"R1": optS(r1), "R2": optS(r2), "distinct": r1 != r2})
+		}
+		// a source with short reads: single signatures, and pairs whose random bytes agree in the FIRST byte only
+		for i := 0; i < 4+c.N/40; i++ {
+			bc := bipCtx{sk: scalarBytes(c.randScalar()), m: c.Bytes(32)}
+			a1, a2 := c.Bytes(32), c.Bytes(32)
+			a2[0] = a1[0]
+			r1, in1 := bipSignShort(bc, a1)
+			in1["rng"] = "short-reads"
+			c.Emit("bip340", in1, J{"R": optS(r1)})
+			r1, in1 = bipSignShort(bc, a1)
+			r2, in2 := bipSignShort(bc, a2)
+			c.Count("nonce/bip340pair:short-reads:aux-tail")
+			c.Emit("bip340pair", J{"c1": in1, "c2": in2, "differs": "aux-tail", "rng": "short-reads"},
 				J{"R1": optS(r1), "R2": optS(r2), "distinct": r1 != r2})
 		}
 		_ = bytes.Equal
